@@ -1,10 +1,13 @@
 package main
 
 import (
+	"strconv"
 	"strings"
 
+	"github.com/grindlemire/go-lucene/pkg/lucene/expr"
 	"github.com/grindlemire/go-lucene/verifharness/gen"
 	"github.com/grindlemire/go-lucene/verifharness/impl"
+	"github.com/grindlemire/go-lucene/verifharness/oracle"
 )
 
 // Property describes how one property is exercised: which result fields tie it to the model, which
@@ -13,7 +16,7 @@ type Property struct {
 	ID       string
 	Fields   map[string]bool // fields of op `q` whose disagreement counts against this property
 	Generate func(cfg RunConfig, emit func(Case))
-	Spec     func(c *Case, qs []impl.QResult) []string // failed clauses
+	Spec     func(c *Case, ps []*Probe) []string // failed clauses
 }
 
 func fields(names ...string) map[string]bool {
@@ -24,7 +27,7 @@ func fields(names ...string) map[string]bool {
 	return m
 }
 
-func noSpec(c *Case, qs []impl.QResult) []string { return nil }
+func noSpec(c *Case, ps []*Probe) []string { return nil }
 
 // tiered picks a size by tier.
 func tiered(cfg RunConfig, quick, thorough int) int {
@@ -59,20 +62,25 @@ func genSampledSeqs(rng *gen.Rng, count, minLen, maxLen int, dfs []string, emit 
 	}
 }
 
-// specPanics: clause of C01 judged on the implementation alone.
-func specC01(c *Case, qs []impl.QResult) []string {
+// specC01: the clauses of C01 judged on the implementation alone: no panic anywhere, no formatting-error marker.
+func specC01(c *Case, ps []*Probe) []string {
 	var out []string
-	for _, r := range qs {
-		for name, f := range map[string]string{"Parse": r.P, "String": r.S, "GoString": r.G, "ToPostgres": r.PG, "ToParameterizedPostgres": r.PP} {
+	for _, p := range ps {
+		for name, f := range p.Impl {
 			if f == "panic" {
-				out = append(out, name+" panicked")
+				out = append(out, "field "+name+" of op "+p.Op+": the call panicked")
 			}
 		}
-		if garbledHex(r.S, c.S, c.DF) {
-			out = append(out, "String() contains a formatting-error marker")
-		}
-		if garbledHex(r.G, c.S, c.DF) {
-			out = append(out, "%#v output contains a formatting-error marker")
+		if p.Op == "q" {
+			if garbledHex(p.Impl["S"], c.S, c.DF) {
+				out = append(out, "String() contains a formatting-error marker")
+			}
+			if garbledHex(p.Impl["G"], c.S, c.DF) {
+				out = append(out, "%#v output contains a formatting-error marker")
+			}
+			if p.Impl["J"] == "err" {
+				out = append(out, "JSON encoding of a parse result failed")
+			}
 		}
 	}
 	return out
@@ -89,22 +97,22 @@ func garbledHex(field string, inputs ...string) bool {
 	return garbled(raw, inputs...)
 }
 
-func specC10(c *Case, qs []impl.QResult) []string {
+func specC10(c *Case, ps []*Probe) []string {
 	var out []string
-	for _, r := range qs {
-		if !r.AllOrNothing {
-			out = append(out, r.AONDetail)
+	for _, p := range ps {
+		if p.Q != nil && !p.Q.AllOrNothing {
+			out = append(out, p.Q.AONDetail)
 		}
 	}
 	return out
 }
 
 // specPair: the two queries of a pair must have the same parse result (identical tree, or both rejected).
-func specPair(c *Case, qs []impl.QResult) []string {
-	if c.Kind != "pair" || len(qs) != 2 {
+func specPair(c *Case, ps []*Probe) []string {
+	if c.Kind != "pair" || len(ps) != 2 {
 		return nil
 	}
-	a, b := qs[0].P, qs[1].P
+	a, b := ps[0].Impl["P"], ps[1].Impl["P"]
 	switch c.Rel {
 	case "same":
 		if a != b {
@@ -118,6 +126,267 @@ func specPair(c *Case, qs []impl.QResult) []string {
 	return nil
 }
 
+// specTree: the parse result must be the tree the public constructors build for the syntax tree (C05).
+func specTree(c *Case, ps []*Probe) []string {
+	if c.Kind != "tree" || c.Want == "" {
+		return nil
+	}
+	if ps[0].Impl["P"] != c.Want {
+		return []string{"parsing the printed tree does not give back the tree built through the public constructors"}
+	}
+	return nil
+}
+
+func both(fs ...func(c *Case, ps []*Probe) []string) func(c *Case, ps []*Probe) []string {
+	return func(c *Case, ps []*Probe) []string {
+		var out []string
+		for _, f := range fs {
+			out = append(out, f(c, ps)...)
+		}
+		return out
+	}
+}
+
+// genTrees is generator G2: syntax trees over the whole printed grammar, printed with minimal parentheses
+// (variant 0), with redundant parentheses (1), with whitespace variants (2, 3), each with its oracle tree.
+func genTrees(rng *gen.Rng, count, depth int, emit func(Case)) {
+	for i := 0; i < count; i++ {
+		t := gen.RandomTree(rng, 1+rng.Intn(depth)).StripJux()
+		want := "ok:" + impl.CanonExpr(oracle.Build(t))
+		variant := t
+		mode := 0
+		switch rng.Intn(4) {
+		case 1:
+			variant = t.AddParens(rng, 30)
+			if rng.Chance(1, 3) {
+				variant = &gen.Ft{K: "paren", E: variant}
+			}
+		case 2:
+			mode = 1
+		case 3:
+			mode = 2
+		}
+		emit(Case{Gen: "G2-tree", Kind: "tree", S: gen.Spell(rng, variant.Print(), mode), Want: want, Idx: i})
+	}
+}
+
+// genJuxPairs: trees printed with a random subset of eligible ANDs as juxtaposition vs the same tree with AND written (C07).
+func genJuxPairs(rng *gen.Rng, count, depth int, emit func(Case)) {
+	n := 0
+	for i := 0; n < count && i < count*20; i++ {
+		t := gen.RandomTree(rng, 1+rng.Intn(depth))
+		if !t.HasJux() {
+			continue
+		}
+		n++
+		df := ""
+		if rng.Chance(1, 3) {
+			df = gen.Pick(rng, gen.DefaultFields)
+		}
+		mode := rng.Intn(3)
+		emit(Case{Gen: "G2-jux", Kind: "pair", Rel: "same", S: gen.Spell(rng, t.Print(), mode), DF: df,
+			S2: gen.Spell(rng, t.StripJux().Print(), mode), DF2: df, Idx: i})
+	}
+}
+
+func isTermSym(s string) bool {
+	switch s {
+	case "a", "b", "5", `"q r"`, "/re/", "w*", "1.5", "*":
+		return true
+	}
+	return false
+}
+
+// genSeqJuxPairs: token sequences with at least one adjacent term pair, and the twin with AND written in one such gap.
+func genSeqJuxPairs(rng *gen.Rng, maxLen int, sample int, dfs []string, emit func(Case)) {
+	idx := 0
+	handle := func(parts []string) {
+		var gaps []int
+		for k := 0; k+1 < len(parts); k++ {
+			if isTermSym(parts[k]) && isTermSym(parts[k+1]) {
+				gaps = append(gaps, k)
+			}
+		}
+		if len(gaps) == 0 {
+			return
+		}
+		g := gaps[rng.Intn(len(gaps))]
+		twin := append(append(append([]string{}, parts[:g+1]...), "AND"), parts[g+1:]...)
+		df := dfs[rng.Intn(len(dfs))]
+		emit(Case{Gen: "G1-juxpair", Kind: "pair", Rel: "same", S: strings.Join(parts, " "), DF: df, S2: strings.Join(twin, " "), DF2: df, Idx: idx})
+		idx++
+	}
+	for n := 2; n <= maxLen; n++ {
+		for i := 0; i < gen.Pow(n); i++ {
+			handle(gen.TokenParts(i, n))
+		}
+	}
+	for i := 0; i < sample; i++ {
+		n := maxLen + 1 + rng.Intn(5)
+		parts := make([]string, n)
+		for k := range parts {
+			parts[k] = gen.Pick(rng, gen.Alphabet)
+		}
+		handle(parts)
+	}
+}
+
+func alphaPTok(s string) gen.PTok {
+	if isTermSym(s) {
+		return gen.PTok{Text: s, Term: true}
+	}
+	switch s {
+	case "NOT", "AND", "OR", "TO", "-":
+		return gen.PTok{Text: s}
+	}
+	return gen.PTok{Text: s, Sym: true}
+}
+
+// genLayoutPairs (C09): a token sequence spelled with single spaces vs another whitespace filling / keyword case;
+// a tree vs the same tree with redundant parentheses.
+func genLayoutPairs(rng *gen.Rng, seqLen, seqSample, trees int, emit func(Case)) {
+	idx := 0
+	seq := func(parts []string) {
+		toks := make([]gen.PTok, len(parts))
+		for i, p := range parts {
+			toks[i] = alphaPTok(p)
+		}
+		base := gen.Spell(rng, toks, 0)
+		df := ""
+		if rng.Chance(1, 4) {
+			df = "df"
+		}
+		var variant string
+		switch rng.Intn(3) {
+		case 0:
+			variant = gen.Spell(rng, toks, 1)
+		case 1:
+			variant = gen.Spell(rng, toks, 2)
+		default:
+			variant = gen.Spell(rng, gen.RecaseKeywords(rng, toks), rng.Intn(2))
+		}
+		emit(Case{Gen: "G1-layout", Kind: "pair", Rel: "same", S: base, DF: df, S2: variant, DF2: df, Idx: idx})
+		idx++
+	}
+	for n := 1; n <= seqLen; n++ {
+		for i := 0; i < gen.Pow(n); i++ {
+			seq(gen.TokenParts(i, n))
+		}
+	}
+	for i := 0; i < seqSample; i++ {
+		n := seqLen + 1 + rng.Intn(6)
+		parts := make([]string, n)
+		for k := range parts {
+			parts[k] = gen.Pick(rng, gen.Alphabet)
+		}
+		seq(parts)
+	}
+	for i := 0; i < trees; i++ {
+		t := gen.RandomTree(rng, 1+rng.Intn(3))
+		df := ""
+		if rng.Chance(1, 4) {
+			df = "df"
+		}
+		base := gen.Spell(rng, t.Print(), 0)
+		switch rng.Intn(3) {
+		case 0:
+			v := t.AddParens(rng, 35)
+			if rng.Chance(1, 3) {
+				v = &gen.Ft{K: "paren", E: v}
+			}
+			emit(Case{Gen: "G2-parens", Kind: "pair", Rel: "sameifok", S: base, DF: df, S2: gen.Spell(rng, v.Print(), rng.Intn(3)), DF2: df, Idx: i})
+		case 1:
+			emit(Case{Gen: "G2-layout", Kind: "pair", Rel: "same", S: base, DF: df, S2: gen.Spell(rng, t.Print(), 1+rng.Intn(2)), DF2: df, Idx: i})
+		default:
+			emit(Case{Gen: "G2-kwcase", Kind: "pair", Rel: "same", S: base, DF: df, S2: gen.Spell(rng, gen.RecaseKeywords(rng, t.Print()), rng.Intn(3)), DF2: df, Idx: i})
+		}
+	}
+}
+
+// specC15: the clauses of C15 judged on the implementation with tracing maps, against the obvious catamorphism.
+func specC15(c *Case, ps []*Probe) []string {
+	if c.Kind != "render" || len(ps) < 2 {
+		return nil
+	}
+	e := ps[0].Expr
+	r := ps[1].Impl["R"]
+	rp := ps[1].Impl["RP"]
+	var out []string
+	if r == "panic" && !ps[1].Loose {
+		out = append(out, "Render panicked")
+	}
+	parts := strings.Split(c.Rel, ":")
+	arg := -1
+	if len(parts) == 2 {
+		arg, _ = strconv.Atoi(parts[1])
+	}
+	calls := 0
+	fold, foldOK := oracle.FoldTrace(e, &calls)
+	has := arg >= 0 && oracle.HasOp(e, expr.Operator(arg))
+	switch parts[0] {
+	case "trace":
+		if foldOK && r != "ok:"+impl.Hex(fold) {
+			out = append(out, "Render with tracing functions is not the fold of the tree (children first, left then right, parentheses by the fixed rule, every node once)")
+		}
+		if !foldOK && r != "err" {
+			out = append(out, "Render returned a result for a tree with an unrenderable column name")
+		}
+	case "trace-minus":
+		if has && strings.HasPrefix(r, "ok:") {
+			out = append(out, "an operator without a registered function did not make Render fail")
+		}
+		if !has && foldOK && r != "ok:"+impl.Hex(fold) {
+			out = append(out, "removing the function of an operator that does not occur changed the output")
+		}
+	case "fail":
+		if has && strings.HasPrefix(r, "ok:") {
+			out = append(out, "a failing render function did not make Render fail")
+		}
+	case "override":
+		if !has && len(ps) >= 3 && r != ps[2].Impl["R"] {
+			out = append(out, "overriding the function of an operator that does not occur changed the output")
+		}
+	case "pg":
+		if oracle.HasOp(e, expr.Fuzzy) || oracle.HasOp(e, expr.Boost) {
+			if strings.HasPrefix(r, "ok:") {
+				out = append(out, "Render succeeded on a tree containing a fuzzy or boost operator")
+			}
+			if strings.HasPrefix(rp, "ok:") && c.Aux != "json" {
+				out = append(out, "RenderParam succeeded on a query containing a fuzzy or boost operator")
+			}
+		}
+	}
+	return out
+}
+
+// genRenderCases (C15): trees from parsed queries (G2) and from decoded JSON documents, each with a described map.
+func genRenderCases(rng *gen.Rng, count int, emit func(Case)) {
+	for i := 0; i < count; i++ {
+		var desc string
+		op := rng.Intn(20)
+		switch rng.Intn(8) {
+		case 0, 1, 2:
+			desc = "trace"
+		case 3:
+			desc = "trace-minus:" + strconv.Itoa(op)
+		case 4:
+			desc = "fail:" + strconv.Itoa(op)
+		case 5:
+			desc = "override:" + strconv.Itoa(op)
+		case 6:
+			desc = "pg"
+		default:
+			desc = "shared"
+		}
+		t := gen.RandomTree(rng, 1+rng.Intn(4))
+		df := ""
+		if rng.Chance(1, 4) {
+			df = gen.Pick(rng, gen.DefaultFields)
+		}
+		emit(Case{Gen: "G2-render", Kind: "render", S: gen.Spell(rng, t.Print(), 0), DF: df, Rel: desc, Aux: "q", Idx: i})
+	}
+}
+
 var properties = map[string]*Property{}
 
 func init() {
@@ -127,7 +396,7 @@ func init() {
 		genSampledSeqs(rng, tiered(cfg, 60000, 1500000), 4, 9, gen.DefaultFields, emit)
 	}
 	add := func(p *Property) { properties[p.ID] = p }
-	add(&Property{ID: "C01", Fields: fields("P", "S", "G", "PG", "PP"), Generate: base, Spec: specC01})
+	add(&Property{ID: "C01", Fields: fields("P", "S", "G", "PG", "PP", "J"), Generate: base, Spec: specC01})
 	add(&Property{ID: "C16", Fields: fields("LEX"), Spec: noSpec, Generate: func(cfg RunConfig, emit func(Case)) {
 		rng := gen.NewRng(cfg.Seed, 16)
 		for n := 1; n <= tiered(cfg, 3, 4); n++ {
@@ -145,4 +414,28 @@ func init() {
 		}
 	}})
 	add(&Property{ID: "C10", Fields: fields("P", "PG", "PP"), Generate: base, Spec: specC10})
+	add(&Property{ID: "C15", Fields: fields("R"), Spec: specC15, Generate: func(cfg RunConfig, emit func(Case)) {
+		rng := gen.NewRng(cfg.Seed, 15)
+		genRenderCases(rng, tiered(cfg, 120000, 2000000), emit)
+	}})
+	add(&Property{ID: "C05", Fields: fields("P"), Spec: specTree, Generate: func(cfg RunConfig, emit func(Case)) {
+		rng := gen.NewRng(cfg.Seed, 5)
+		genTrees(rng, tiered(cfg, 150000, 3000000), 4, emit)
+		genTokenSeqs(tiered(cfg, 3, 4), []string{""}, emit)
+	}})
+	add(&Property{ID: "C06", Fields: fields("P"), Spec: noSpec, Generate: func(cfg RunConfig, emit func(Case)) {
+		rng := gen.NewRng(cfg.Seed, 6)
+		genTokenSeqs(tiered(cfg, 3, 4), []string{"", "df"}, emit)
+		genSampledSeqs(rng, tiered(cfg, 100000, 3000000), 4, 10, gen.DefaultFields, emit)
+		genTrees(rng, tiered(cfg, 30000, 500000), 4, emit)
+	}})
+	add(&Property{ID: "C07", Fields: fields("P"), Spec: specPair, Generate: func(cfg RunConfig, emit func(Case)) {
+		rng := gen.NewRng(cfg.Seed, 7)
+		genSeqJuxPairs(rng, tiered(cfg, 4, 5), tiered(cfg, 100000, 2000000), []string{"", "df"}, emit)
+		genJuxPairs(rng, tiered(cfg, 60000, 1500000), 4, emit)
+	}})
+	add(&Property{ID: "C09", Fields: fields("P"), Spec: specPair, Generate: func(cfg RunConfig, emit func(Case)) {
+		rng := gen.NewRng(cfg.Seed, 9)
+		genLayoutPairs(rng, tiered(cfg, 3, 4), tiered(cfg, 60000, 1500000), tiered(cfg, 90000, 1500000), emit)
+	}})
 }
